@@ -3,7 +3,9 @@ Hand-written model of the bookkeeping around the Horvath-Kawazoe solvers (charac
 the tail of `psd_horvath_kawazoe` / `psd_horvath_kawazoe_ry` after the widths have been found, the width transforms per geometry,
 the coverage used by the Cheng-Yang correction and the default limits of `psd_microporous`.
 The potential functions themselves are regenerated from the source (`Gen/CharR.lean`: `hk_slit_potential`, …); the scalar
-minimisation `_solve_hk` is numerical and is checked by certificate (residual of the recorded potential) in the harness.
+minimisation inside `_solve_hk` / `_solve_hk_cy` is numerical and is checked by certificate (residual of the recorded potential) in the
+harness; the LOOP of the two solvers around it is `solveLoop` / `solveHK` / `solveHKCY` below (one minimisation per point, the same for
+every point; Props/C17/Solver.lean), run by Drv/Char.lean with the widths measured on single points.
 -/
 import Mathlib.Algebra.Order.Field.Basic
 import PgVerif.Model.Linear
@@ -47,6 +49,39 @@ def tail (widths vol : List α) : Result α :=
 def coverage [LinearOrder α] (c101 : α) (loading : List α) : List α :=
   let m := loading.foldl max (loading.headD 0)
   loading.map (· / (m * c101))
+
+/-! ### the solver loops `_solve_hk` / `_solve_hk_cy`
+
+```
+p_w = []; p_w_max = 10 / geo
+for p_point in pressure:                      # _solve_hk_cy: for p_point, c_point in zip(pressure, coverage)
+    def fun(l_pore): return (numpy.exp(hk_fun(l_pore)) - p_point)**2
+    res = optimize.minimize_scalar(fun, method='bounded', bounds=(bound, 50))
+    p_w.append(res.x)
+    if res.x > p_w_max: break
+return p_w
+```
+The potential `hk_fun` and the search interval `(bound, 50)` are the same for every pass; the only thing that changes between two passes is
+the point itself.  The numerical minimisation is therefore a FUNCTION `solve` of the point (the harness measures it on the real code by
+putting the point first in a call: the first pass of any loop has no history), and the loop is `solveLoop`. -/
+
+/-- the loop shared by the two solvers: one width per point, in the order of the points, stopping after the first width above `wmax` -/
+def solveLoop {β γ : Type} [LT γ] [DecidableLT γ] (solve : β → γ) (wmax : γ) : List β → List γ
+  | [] => []
+  | x :: xs => if wmax < solve x then [solve x] else solve x :: solveLoop solve wmax xs
+
+/-- `_solve_hk(pressure, hk_fun, bound, geo)`; `solve p` = `minimize_scalar((exp(hk_fun(l)) - p)^2, bounds=(bound, 50)).x` -/
+def solveHK [LinearOrder α] (solve : α → α) (geo : α) (pressure : List α) : List α :=
+  solveLoop solve (10 / geo) pressure
+
+/-- `_solve_hk_cy(pressure, loading, hk_fun, bound, geo)`; `solve p c` = the minimiser for the pressure `p` and the coverage `c`
+(`sf_corr = 1 + 1 / c * log(1 - c)` is computed from `c` inside the pass); `zip` stops at the shorter list -/
+def solveHKCY [LinearOrder α] (solve : α → α → α) (c101 geo : α) (pressure loading : List α) : List α :=
+  solveLoop (fun pc : α × α => solve pc.1 pc.2) (10 / geo) (pressure.zip (coverage c101 loading))
+
+/-- a measured solver: the widths found for single points, as an association list (used by the driver; anything else is `0`) -/
+def tableSolve {β : Type} [DecidableEq β] (table : List (β × α)) (x : β) : α :=
+  (table.lookup x).getD 0
 
 /-- `psd_microporous`: `p_limits = None` means `(None, 0.2)` -/
 def microWindow [LinearOrder α] (ps : List α) (c20 : α) (limits : Option (Option α × Option α)) : Option (Nat × Nat) :=
